@@ -70,5 +70,32 @@ put('assumed', aout)
 put('status', out)
 put('seeds', sout)
 put('heldout', hout)
+
+ben = []
+nfirst = nfinal = ntotal = 0
+for d in sorted(glob.glob(V + '/benign/C*')):
+    pid = os.path.basename(d)
+    try:
+        first = json.load(open(d + '/results_first_run.json'))
+    except Exception:
+        first = {}
+    try:
+        final = json.load(open(d + '/results.json'))
+    except Exception:
+        final = {}
+    for k in sorted(set(first) | set(final)):
+        ntotal += 1
+        f0 = first.get(k, {}); f1 = final.get(k, {})
+        a0 = ' '.join(f0.get('alarms', [])) or '-'
+        a1 = ' '.join(f1.get('alarms', [])) or '-'
+        if a0 != '-': nfirst += 1
+        if a1 != '-': nfinal += 1
+        kind = {'1': 'rename', '2': 'control flow', '3': 'extract helper'}.get(k.split('/')[-1], '?')
+        notes = ' '.join(f1.get('notes', []))
+        ben.append(f"| {k} | {kind} | {' '.join(f1.get('checks_run', f0.get('checks_run', [])))} | {a0} | {a1} | {notes or '-'} |")
+bout = [f"{ntotal} behaviour-preserving changes; first run: {nfirst} raised an alarm; with the corrected machinery: {nfinal}.", "",
+        "| change | kind | checks run | alarms, first run | alarms, current machinery | re-bindings used |", "|---|---|---|---|---|---|"] + ben
+put('benign', bout)
+
 open(p, 'w').write(s)
 print('DESIGN.md tables regenerated')
